@@ -8,12 +8,19 @@ CONSTANTS AB_H, AB_N, U_H, U_N,   \* length bounds: {a,b} bytes / {a,b,n-tilde} 
 RawBytes  == {97, 128, 195, 255}  \* ASCII, continuation byte, lead byte, never-valid byte
 
 UChars    == {CA, <<98>>, CNT}
-MCHays    == SeqsUpTo({97, 98}, AB_H) \cup StrsUpTo(UChars, U_H) \cup SeqsUpTo(RawBytes, RAW_H)
-MCNeedles == SeqsUpTo({97, 98}, AB_N) \cup StrsUpTo(UChars, U_N) \cup SeqsUpTo(RawBytes, RAW_N)
+\* characters sharing bytes at different positions, and characters at the ends of every encoded width
+XChars    == {CSQRT, CSQRT2, CCRAB, CCRAB2}
+\* pairs are formed inside each alphabet family (a needle of another family can only be absent)
+MCPairs   == (SeqsUpTo({97, 98}, AB_H) \X SeqsUpTo({97, 98}, AB_N))
+               \cup (StrsUpTo(UChars, U_H) \X StrsUpTo(UChars, U_N))
+               \cup (SeqsUpTo(RawBytes, RAW_H) \X SeqsUpTo(RawBytes, RAW_N))
+               \cup (StrsUpTo(XChars, 3) \X StrsUpTo(XChars, 2))
+               \cup (StrsUpTo(EdgeChars, 2) \X StrsUpTo(EdgeChars, 1))
+               \cup (StrsUpTo(UChars, 2) \X StrsUpTo(EdgeChars, 1))
 
 Vec(o, hh, nn) == [m |-> "Matcher", op |-> o, h |-> hh, n |-> nn, exp |-> Ref(o, hh, nn)]
 \* one file per operation (TLC limits a set to 10^6 elements); keys are homogeneous tuples
-EmitOp(o) == LET ks == SetToSeq({<<hh, nn>> \in MCHays \X MCNeedles : Specified(o, hh, nn)}) IN
+EmitOp(o) == LET ks == SetToSeq({p \in MCPairs : Specified(o, p[1], p[2])}) IN
              ndJsonSerialize(IOEnv.OUT \o "-" \o o \o ".ndjson", [q \in 1..Len(ks) |-> Vec(o, ks[q][1], ks[q][2])])
 Emit == \A o \in Ops : EmitOp(o)
 =============================================================================
